@@ -136,6 +136,13 @@ let run line =
                     | PR (_, Some v) -> out := ("fd " ^ (if v = JNull then "-" else string_of_jv v)) :: !out   (* a JSON null is the NULL pointer, like a failure *)
                     | _ -> out := "fd -" :: !out))
               | _ -> failwith "E op")
+           | 'Y' when !dead -> out := "skipped" :: !out
+           | 'Y' ->
+             (* an invalid length argument (len < -1): TokSize.size_guard_n refuses; the caller's locale is not an
+                input of the model (it is untouched: C14) *)
+             if size_guard_n true (z_of_int 3) (z_of_string body) then begin
+               dead := true; out := "size 0 - loc1" :: !out
+             end else out := "? ? ? ?" :: !out
            | 'B' when !dead -> out := "skipped" :: !out
            | 'B' ->
              (* a NUL-terminated input of n bytes, len = -1: the size guard of TokSize.parse_api refuses
